@@ -115,7 +115,7 @@ theorem cloneNode_sim (S : OpSem α) (st : St) (m : VMap) (np : String) (n : FNo
   simp only [List.length_map] at i1 i2
   simp only [cloneNode, evalNode, evalFNode]
   rw [clone_ins_vals m e ne hr n.ins]
-  generalize S.op n.domain n.op "" (n.ins.map (fun i => i.bind ne)) = vs
+  generalize S.op n.domain n.op "" (plainAttrs n.attrs) (n.ins.map (fun i => i.bind ne)) = vs
   have hlen : n.outs.length = (newValues st (n.outs.map (fun o => if o = "" then "" else np ++ o))).2.length := by
     rw [i1]; simp
   have hnd : (newValues st (n.outs.map (fun o => if o = "" then "" else np ++ o))).2.Nodup := by
@@ -320,22 +320,25 @@ theorem inlineRun_spec (total : Bool) (st0 : St) (f : Fn) (actuals : List (Optio
 /-- on the success path `call_inline` appends exactly the clones of the body to the current graph and
     returns the values the function's outputs are mapped to. -/
 theorem doInline_appends (total : Bool) (fns : List Fn) (st : St) (fi : Nat) (args : List Arg)
-    (outs : Option (List String)) (pfx : String) (f : Fn) (hf : fns[fi]? = some f)
+    (outs : Option (List String)) (pfx : String) (as : List (String × AVal)) (f : Fn) (hf : fns[fi]? = some f)
     (h1 : args.all isRef = true) (h2 : ¬ args.length > f.formals.length)
     (h3 : outsMismatch outs f = false) :
-    (doInline total fns st fi args outs pfx).cur.nodes = st.cur.nodes ++
-      (inlineClones total (if pfx = "" then st else pushScope st pfx) f
+    (doInline total fns st fi args outs pfx as).cur.nodes = st.cur.nodes ++
+      (inlineClones total (if pfx = "" then st else pushScope st pfx) (resolveFn (effectiveAttrs total f as) f)
         (resolveArgs (if pfx = "" then st else pushScope st pfx) args).2).2.2 ∧
-    (doInline total fns st fi args outs pfx).handles = st.handles ++ f.outputs.map (vmapGet
-      (inlineClones total (if pfx = "" then st else pushScope st pfx) f
+    (doInline total fns st fi args outs pfx as).handles = st.handles ++ f.outputs.map (vmapGet
+      (inlineClones total (if pfx = "" then st else pushScope st pfx) (resolveFn (effectiveAttrs total f as) f)
         (resolveArgs (if pfx = "" then st else pushScope st pfx) args).2).2.1) := by
   have hst0 : (if pfx = "" then st else pushScope st pfx).cur.nodes = st.cur.nodes := by
     split <;> simp [pushScope]
   have hst0h : (if pfx = "" then st else pushScope st pfx).handles = st.handles := by
     split <;> simp [pushScope]
-  obtain ⟨r1, r2, r3⟩ := inlineRun_spec total (if pfx = "" then st else pushScope st pfx) f
+  obtain ⟨r1, r2, r3⟩ := inlineRun_spec total (if pfx = "" then st else pushScope st pfx)
+    (resolveFn (effectiveAttrs total f as) f)
     (resolveArgs (if pfx = "" then st else pushScope st pfx) args).2
     (outs.map (fun o => o.map (qualifyValue st.cur)))
+  have hout : (resolveFn (effectiveAttrs total f as) f).outputs = f.outputs := rfl
+  rw [hout] at r3
   unfold doInline
   simp only [hf, h1, Bool.not_true, Bool.false_eq_true, if_false, h2, h3]
   by_cases hp : pfx = ""
@@ -590,7 +593,7 @@ theorem sim_node (S : OpSem α) (args : List α) (st st' : St) (r : RSt α) (n :
     (e4 : st'.handles = st.handles ++ n.outs.map some)
     (ho1 : n.outs.Nodup) (ho2 : ∀ o ∈ n.outs, st.L ≤ o) (ho3 : ∀ o ∈ n.outs, ∀ e ∈ st'.cache, e.2 ≠ o)
     (hins : List.Forall₂ (ArgOK st.handles st'.cache) a n.ins) :
-    Sim S args st' ⟨r.henv ++ takeN (S.op n.domain n.op n.overload (a.map (argVal S r.henv))) n.outs.length,
+    Sim S args st' ⟨r.henv ++ takeN (S.op n.domain n.op n.overload n.attrs (a.map (argVal S r.henv))) n.outs.length,
       r.nin⟩ := by
   -- old nodes evaluated in the extended base environment
   have hold : ∀ k ∈ st.cur.nodes, NodeOK st.L st.inits k := h.bnd.nodes st.cur (by simp [St.frames])
@@ -638,7 +641,7 @@ theorem sim_node (S : OpSem α) (args : List α) (st st' : St) (r : RSt α) (n :
         simp only [Option.bind_some, argVal]
         exact hlitid _ id hm
   have hE : evalGraph S st' args = bindOuts (evalNodes S (baseEnv S st' args) st.cur.nodes) n.outs
-      (S.op n.domain n.op n.overload (a.map (argVal S r.henv))) := by
+      (S.op n.domain n.op n.overload n.attrs (a.map (argVal S r.henv))) := by
     unfold evalGraph
     rw [e1, evalNodes_append]
     simp only [evalNode, hB]
@@ -685,16 +688,16 @@ theorem outKeys_length (f : Frame) (c : Nat) (op : String) (o : Outs) : (outKeys
     · simp
 
 theorem doOp_shape (total : Bool) (st : St) (t : String) (a : List Arg) (o : Outs) (nn : Option String)
-    (g : List Nat) :
-    ∃ n : Node, n.domain = "" ∧ n.op = t ∧ n.overload = "" ∧ n.ins = (resolveArgs st a).2 ∧
+    (g : List Nat) (as : List (String × AVal)) :
+    ∃ n : Node, n.domain = "" ∧ n.op = t ∧ n.overload = "" ∧ n.attrs = as ∧ n.ins = (resolveArgs st a).2 ∧
       n.outs = (newValuesK (resolveArgs st a).1
         (outKeys (resolveArgs st a).1.cur (nodeCount total (resolveArgs st a).1) t o)).2 ∧
-      (doOp total st t a o nn g).cur.nodes = (resolveArgs st a).1.cur.nodes ++ [n] ∧
-      (doOp total st t a o nn g).cur.inputs = (resolveArgs st a).1.cur.inputs ∧
-      (doOp total st t a o nn g).cache = (resolveArgs st a).1.cache ∧
-      (doOp total st t a o nn g).inits = (resolveArgs st a).1.inits ∧
-      (doOp total st t a o nn g).handles = (resolveArgs st a).1.handles ++ n.outs.map some ∧
-      (doOp total st t a o nn g).L = (resolveArgs st a).1.L + outCount o := by
+      (doOp total st t a o nn g as).cur.nodes = (resolveArgs st a).1.cur.nodes ++ [n] ∧
+      (doOp total st t a o nn g as).cur.inputs = (resolveArgs st a).1.cur.inputs ∧
+      (doOp total st t a o nn g as).cache = (resolveArgs st a).1.cache ∧
+      (doOp total st t a o nn g as).inits = (resolveArgs st a).1.inits ∧
+      (doOp total st t a o nn g as).handles = (resolveArgs st a).1.handles ++ n.outs.map some ∧
+      (doOp total st t a o nn g as).L = (resolveArgs st a).1.L + outCount o := by
   unfold doOp
   split
   rename_i st1 ins hr
@@ -702,8 +705,8 @@ theorem doOp_shape (total : Bool) (st : St) (t : String) (a : List Arg) (o : Out
   obtain ⟨b1, b2, b3, b4, b5, b6⟩ := newValuesK_spec (outKeys st1.cur (nodeCount total st1) t o) st1
   obtain ⟨c1, c2, c3⟩ := newValuesK_csd (outKeys st1.cur (nodeCount total st1) t o) st1
   refine ⟨⟨nn.getD (autoNodeName st1.cur (nodeCount total st1) t), "", t, ins,
-    (newValuesK st1 (outKeys st1.cur (nodeCount total st1) t o)).2, g, ""⟩,
-    rfl, rfl, rfl, rfl, rfl, ?_, ?_, ?_, ?_, ?_, ?_⟩
+    (newValuesK st1 (outKeys st1.cur (nodeCount total st1) t o)).2, g, "", as⟩,
+    rfl, rfl, rfl, rfl, rfl, rfl, ?_, ?_, ?_, ?_, ?_, ?_⟩
   · simp [addNode, c1]
   · simp [addNode, c1]
   · simp [addNode, b4]
@@ -713,24 +716,24 @@ theorem doOp_shape (total : Bool) (st : St) (t : String) (a : List Arg) (o : Out
     rw [b2, outKeys_length]
 
 theorem doCall_shape (total : Bool) (fns : List Fn) (st : St) (fi : Nat) (a : List Arg) (o : Option Outs)
-    (f : Fn) (hf : fns[fi]? = some f) (keys : List VKey) (st1 : St)
+    (as : List (String × AVal)) (f : Fn) (hf : fns[fi]? = some f) (keys : List VKey) (st1 : St)
     (hk : keys = outKeys st.cur (nodeCount total st) f.name (o.getD (.auto f.outputs.length)))
     (h1 : st1 = (newValuesK st keys).1) :
-    ∃ n : Node, n.domain = f.domain ∧ n.op = f.name ∧ n.overload = f.overload ∧
+    ∃ n : Node, n.domain = f.domain ∧ n.op = f.name ∧ n.overload = f.overload ∧ n.attrs = as ∧
       n.ins = (resolveArgs st1 a).2 ∧ n.outs = (newValuesK st keys).2 ∧
-      (doCall total fns st fi a o).cur.nodes = (resolveArgs st1 a).1.cur.nodes ++ [n] ∧
-      (doCall total fns st fi a o).cur.inputs = (resolveArgs st1 a).1.cur.inputs ∧
-      (doCall total fns st fi a o).cache = (resolveArgs st1 a).1.cache ∧
-      (doCall total fns st fi a o).inits = (resolveArgs st1 a).1.inits ∧
-      (doCall total fns st fi a o).handles = (resolveArgs st1 a).1.handles ++ n.outs.map some ∧
-      (doCall total fns st fi a o).L = (resolveArgs st1 a).1.L := by
+      (doCall total fns st fi a o as).cur.nodes = (resolveArgs st1 a).1.cur.nodes ++ [n] ∧
+      (doCall total fns st fi a o as).cur.inputs = (resolveArgs st1 a).1.cur.inputs ∧
+      (doCall total fns st fi a o as).cache = (resolveArgs st1 a).1.cache ∧
+      (doCall total fns st fi a o as).inits = (resolveArgs st1 a).1.inits ∧
+      (doCall total fns st fi a o as).handles = (resolveArgs st1 a).1.handles ++ n.outs.map some ∧
+      (doCall total fns st fi a o as).L = (resolveArgs st1 a).1.L := by
   subst h1
   unfold doCall
   simp only [hf, ← hk]
   refine ⟨⟨autoNodeName (resolveArgs (newValuesK st keys).1 a).1.cur
       (nodeCount total (resolveArgs (newValuesK st keys).1 a).1) f.name,
-    f.domain, f.name, (resolveArgs (newValuesK st keys).1 a).2, (newValuesK st keys).2, [], f.overload⟩,
-    rfl, rfl, rfl, rfl, rfl, ?_, ?_, ?_, ?_, ?_, ?_⟩ <;> simp [addNode, St.L]
+    f.domain, f.name, (resolveArgs (newValuesK st keys).1 a).2, (newValuesK st keys).2, [], f.overload, as⟩,
+    rfl, rfl, rfl, rfl, rfl, rfl, ?_, ?_, ?_, ?_, ?_, ?_⟩ <;> simp [addNode, St.L]
 
 /-! ## one step of the simulation -/
 
@@ -739,17 +742,18 @@ theorem CacheOK.grow {st st' : St} (h : CacheOK st) (hc : st'.cache = st.cache) 
   ⟨hc ▸ h.nodup, by rw [hi, hc]; exact h.inits, fun e he => Nat.lt_of_lt_of_le (h.bound e (hc ▸ he)) hL⟩
 
 theorem sim_op (S : OpSem α) (fns : List Fn) (args : List α) (total : Bool) (st : St) (r : RSt α)
-    (t : String) (a : List Arg) (o : Outs) (nn : Option String) (g : List Nat) (h : Sim S args st r) :
-    Sim S args (doOp total st t a o nn g) (replayStep S fns args r (.op t a o nn g)) := by
-  obtain ⟨n, n1, n2, n3, n4, n5, s1, s2, s3, s4, s5, s6⟩ := doOp_shape total st t a o nn g
+    (t : String) (a : List Arg) (o : Outs) (nn : Option String) (g : List Nat) (as : List (String × AVal))
+    (h : Sim S args st r) :
+    Sim S args (doOp total st t a o nn g as) (replayStep S fns args r (.op t a o nn g as)) := by
+  obtain ⟨n, n1, n2, n3, na, n4, n5, s1, s2, s3, s4, s5, s6⟩ := doOp_shape total st t a o nn g as
   obtain ⟨q1, ⟨ext, q2, q3⟩, q4, q5⟩ := resolveArgs_sem a st h.cok
   obtain ⟨w1, w2, w3, w4, w5, w6⟩ := resolveArgs_spec a st h.bnd
   obtain ⟨b1, b2, _⟩ := newValuesK_spec
     (outKeys (resolveArgs st a).1.cur (nodeCount total (resolveArgs st a).1) t o) (resolveArgs st a).1
   rw [outKeys_length] at b1 b2
   have hlen : n.outs.length = outCount o := by rw [n5, b1]; simp
-  have hres := sim_node S args st (doOp total st t a o nn g) r n a ext h
-    (Bnd.doOp total st t a o nn g h.bnd)
+  have hres := sim_node S args st (doOp total st t a o nn g as) r n a ext h
+    (Bnd.doOp total st t a o nn g as h.bnd)
     (q1.grow s3 s4 (by rw [s6]; omega))
     (by rw [s1, q5]) (by rw [s2, q5]) (by rw [s3, q2]) q3 (by rw [s5, w2])
     (by rw [n5, b1]; exact range_add_nodup _ _)
@@ -768,13 +772,14 @@ theorem sim_op (S : OpSem α) (fns : List Fn) (args : List α) (total : Bool) (s
       obtain ⟨j, _, rfl⟩ := hx
       omega)
     (by rw [n4, s3]; exact q4)
-  simpa [replayStep, n1, n2, n3, hlen] using hres
+  simpa [replayStep, n1, n2, n3, na, hlen] using hres
 
 theorem sim_call (S : OpSem α) (fns : List Fn) (args : List α) (total : Bool) (st : St) (r : RSt α)
-    (fi : Nat) (a : List Arg) (o : Option Outs) (f : Fn) (hf : fns[fi]? = some f) (h : Sim S args st r) :
-    Sim S args (doCall total fns st fi a o) (replayStep S fns args r (.call fi a o)) := by
-  obtain ⟨n, n1, n2, n3, n4, n5, s1, s2, s3, s4, s5, s6⟩ :=
-    doCall_shape total fns st fi a o f hf _ _ rfl rfl
+    (fi : Nat) (a : List Arg) (o : Option Outs) (as : List (String × AVal)) (f : Fn) (hf : fns[fi]? = some f)
+    (h : Sim S args st r) :
+    Sim S args (doCall total fns st fi a o as) (replayStep S fns args r (.call fi a o as)) := by
+  obtain ⟨n, n1, n2, n3, na, n4, n5, s1, s2, s3, s4, s5, s6⟩ :=
+    doCall_shape total fns st fi a o as f hf _ _ rfl rfl
   generalize hk : outKeys st.cur (nodeCount total st) f.name (o.getD (.auto f.outputs.length)) = keys
     at n4 n5 s1 s2 s3 s4 s5 s6
   obtain ⟨b1, b2, b3, b4, b5, b6⟩ := newValuesK_spec keys st
@@ -785,8 +790,8 @@ theorem sim_call (S : OpSem α) (fns : List Fn) (args : List α) (total : Bool) 
   have hb1 := BndP.created keys h.bnd
   obtain ⟨w1, w2, w3, w4, w5, w6⟩ := resolveArgs_spec a (newValuesK st keys).1 hb1
   have hlen : n.outs.length = outCount (o.getD (.auto f.outputs.length)) := by rw [n5, b1]; simp [hkl]
-  have hres := sim_node S args st (doCall total fns st fi a o) r n a ext h
-    (Bnd.doCall total fns st fi a o h.bnd)
+  have hres := sim_node S args st (doCall total fns st fi a o as) r n a ext h
+    (Bnd.doCall total fns st fi a o as h.bnd)
     (q1.grow s3 s4 (Nat.le_of_eq s6.symm))
     (by rw [s1, q5, c1]) (by rw [s2, q5, c1]) (by rw [s3, q2, b4])
     (fun e he => by have := q3 e he; rw [b2] at this; omega)
@@ -808,7 +813,7 @@ theorem sim_call (S : OpSem α) (fns : List Fn) (args : List α) (total : Bool) 
       · have := h.cok.bound e y; omega
       · have := q3 e y; rw [b2] at this; omega)
     (by rw [n4, s3, ← b3]; exact q4)
-  simpa [replayStep, hf, n1, n2, n3, hlen] using hres
+  simpa [replayStep, hf, n1, n2, n3, na, hlen] using hres
 
 theorem sim_meta (S : OpSem α) (args : List α) (st st' : St) (r : RSt α) (h : Sim S args st r)
     (hb : Bnd st') (hL : st.L ≤ st'.L) (hh : st'.handles = st.handles) (hc : st'.cache = st.cache)
@@ -866,7 +871,7 @@ theorem sim_input (S : OpSem α) (fns : List Fn) (args : List α) (st : St) (r :
 
 /-- items of a subgraph-free, inline-free trace. -/
 def simItem : Item → Bool
-  | .inline _ _ _ _ => false
+  | .inline _ _ _ _ _ => false
   | .beginSub _ _ => false
   | .endSub _ _ => false
   | _ => true
@@ -880,20 +885,20 @@ theorem sim_step (S : OpSem α) (fns : List Fn) (args : List α) (total : Bool) 
   have hb := Bnd.step total fns st it (simItem_wf hs) h.bnd
   cases it with
   | input n => exact sim_input S fns args st r n h
-  | op t a o nn g => exact sim_op S fns args total st r t a o nn g h
+  | op t a o nn g as => exact sim_op S fns args total st r t a o nn g as h
   | push n => exact sim_meta S args st _ r h hb (Nat.le_refl _) rfl rfl rfl rfl rfl
   | pop =>
     simp only [step, popScope, replayStep] at hb ⊢
     split
     · exact sim_fail S args st r _ h
     · exact sim_meta S args st _ r h (by simpa [*] using hb) (Nat.le_refl _) rfl rfl rfl rfl rfl
-  | call fi a o =>
+  | call fi a o as =>
     cases hf : fns[fi]? with
     | none =>
       simp only [step, doCall, hf, replayStep]
       exact sim_fail S args st r _ h
-    | some f => exact sim_call S fns args total st r fi a o f hf h
-  | inline f a o p => simp [simItem] at hs
+    | some f => exact sim_call S fns args total st r fi a o as f hf h
+  | inline f a o p as => simp [simItem] at hs
   | beginSub g i => simp [simItem] at hs
   | endSub r d => simp [simItem] at hs
   | output hd n =>
@@ -1102,7 +1107,8 @@ theorem inlineRun_but (total : Bool) (st0 : St) (f : Fn) (actuals : List (Option
   exact SameBut.trans (addInlined_but _ _ _) (renameFinals_core _ _ _ _).but
 
 theorem Bnd.doInline (total : Bool) (fns : List Fn) (st : St) (fi : Nat) (a : List Arg)
-    (o : Option (List String)) (p : String) (h : Bnd st) : Bnd (doInline total fns st fi a o p) := by
+    (o : Option (List String)) (p : String) (as : List (String × AVal)) (h : Bnd st) :
+    Bnd (doInline total fns st fi a o p as) := by
   unfold OV.C18.doInline
   split
   · exact Bnd.fail st _ h
@@ -1115,6 +1121,7 @@ theorem Bnd.doInline (total : Bool) (fns : List Fn) (st : St) (fi : Nat) (a : Li
       · split
         · exact Bnd.fail st _ h
         · simp only []
+          generalize resolveFn (effectiveAttrs total f as) f = f'
           have hrefs' : a.all isRef = true := by simpa using hrefs
           -- the builder the body is inlined into
           have h0 : Bnd (if p = "" then st else pushScope st p) := by
@@ -1129,12 +1136,12 @@ theorem Bnd.doInline (total : Bool) (fns : List Fn) (st : St) (fi : Nat) (a : Li
             · rw [resolveArgs_refs a st0 hrefs'] at x; exact h0.inits i x
             · exact h0.handles i x
           obtain ⟨b1, b2, b3, b4, b5, b6, b7, b8, b9, b10⟩ := cloneNodes_wf
-            (autoNodeName st0.cur (nodeCount total st0) f.name ++ "/") f.nodes st0
-            (f.formals.zip (resolveArgs st0 a).2) [] h0
-            (vmapGet_zip_bound f.formals _ st0.L hact)
-          obtain ⟨r1, r2, r3⟩ := inlineRun_spec total st0 f (resolveArgs st0 a).2
+            (autoNodeName st0.cur (nodeCount total st0) f'.name ++ "/") f'.nodes st0
+            (f'.formals.zip (resolveArgs st0 a).2) [] h0
+            (vmapGet_zip_bound f'.formals _ st0.L hact)
+          obtain ⟨r1, r2, r3⟩ := inlineRun_spec total st0 f' (resolveArgs st0 a).2
             (o.map (fun o => o.map (qualifyValue st.cur)))
-          obtain ⟨u1, u2, u3, u4, u5, u6, u7⟩ := inlineRun_but total st0 f (resolveArgs st0 a).2
+          obtain ⟨u1, u2, u3, u4, u5, u6, u7⟩ := inlineRun_but total st0 f' (resolveArgs st0 a).2
             (o.map (fun o => o.map (qualifyValue st.cur)))
           simp only [List.nil_append] at b1
           unfold inlineClones at r1 r2 r3 u1 u2 u3 u4 u5 u6 u7
@@ -1145,7 +1152,7 @@ theorem Bnd.doInline (total : Bool) (fns : List Fn) (st : St) (fi : Nat) (a : Li
             · exact ⟨SameBut.refl s, rfl⟩
             · exact ⟨popScope_but s, popScope_nodes s⟩
           obtain ⟨⟨v1, v2, v3, v4, v5, v6, v7⟩, v8⟩ := hpop
-            (inlineRun total st0 f (resolveArgs st0 a).2 (o.map (fun o => o.map (qualifyValue st.cur)))).1
+            (inlineRun total st0 f' (resolveArgs st0 a).2 (o.map (fun o => o.map (qualifyValue st.cur)))).1
           refine b1.placeMany _ (fun c hc => by rw [b4]; exact b9 c hc) ?_ _ ?_ _
             (by simp only [St.L] at v1 u1 ⊢; rw [v1, u1]) (by simp only []; rw [v2, u2, r3]) (by simp only []; rw [v3, u3])
             (by simp only []; rw [v4, u4]) (by simp only []; rw [v5, u5]) (by simp only []; rw [v8, r1, b5])
@@ -1163,7 +1170,7 @@ theorem Bnd.stepAll (total : Bool) (fns : List Fn) (st : St) (it : Item) (h : Bn
   by_cases hw : wfItem it = true
   · exact Bnd.step total fns st it hw h
   · cases it with
-    | inline f a o p => exact Bnd.doInline total fns st f a o p h
+    | inline f a o p as => exact Bnd.doInline total fns st f a o p as h
     | _ => simp [wfItem] at hw
 
 theorem Bnd.foldlAll (total : Bool) (fns : List Fn) : ∀ (tr : List Item) (st : St),
